@@ -519,8 +519,68 @@ def from_module_options(run):
                 run.oracle_ok("from_module_options")
 
 
+def from_modules_oracle(run):
+    """TensorDict.from_modules (parameters of several modules stacked for vmap) with its options, on the real layers: entry i of
+    the stack holds exactly the parameters and buffers of module i under their qualified names (names, shapes, values), a
+    Parameter stays a Parameter with its requires_grad, a buffer stays a non-Parameter"""
+    from tensordict import TensorDict
+    from tensordict.nn import TensorDictParams
+    for fname, (factory, _) in FACTORIES.items():
+        if fname in ("lazy", "with_tdparams"):
+            continue
+        for opts in ({}, {"as_module": True}, {"lazy_stack": True}, {"expand_identical": True}, {"use_state_dict": True}, {"lock": False}):
+            case = ["from_modules", fname, sorted(opts)]
+            run.case("zoo:from_modules:" + fname + ":" + ",".join(sorted(opts)))
+            torch.manual_seed(2)
+            mods = [factory() for _ in range(3)]
+            for i, m in enumerate(mods):
+                with torch.no_grad():
+                    for p in m.parameters():
+                        p.add_(i)
+            usd = opts.get("use_state_dict", False)
+            try:
+                with time_limit(90):
+                    ps = TensorDict.from_modules(*mods, **opts)
+            except TimeoutError:
+                raise
+            except Exception as e:  # noqa: BLE001
+                run.oracle_fail("from_modules", case, f"raised {type(e).__name__}: {str(e)[:100]}", f"from_modules:raised:{type(e).__name__}")
+                continue
+            bad = []
+            if tuple(ps.batch_size)[:1] != (3,):
+                bad.append(f"batch_size {tuple(ps.batch_size)}")
+            if opts.get("as_module") and not isinstance(ps, TensorDictParams):
+                bad.append("as_module=True did not return a TensorDictParams")
+            if ps.is_locked != opts.get("lock", True):
+                bad.append(f"is_locked={ps.is_locked}")
+            refs = [TensorDict.from_module(m, use_state_dict=usd) for m in mods]
+            for i, ref in enumerate(refs):
+                got = ps[i]
+                kr, kg = set(ref.keys(True, True)), set(got.keys(True, True))
+                if kr != kg:
+                    bad.append(f"names of entry {i}: {sorted(map(str, kr ^ kg))[:4]}")
+                    continue
+                for k in kr:
+                    a, b = ref.get(k), got.get(k)
+                    if a.shape != b.shape or not torch.equal(a.data, b.data):
+                        bad.append(f"value of entry {i} at {k}")
+            if not opts.get("lazy_stack"):
+                inner = ps._param_td if isinstance(ps, TensorDictParams) else ps
+                for k in refs[0].keys(True, True):
+                    a, b = refs[0].get(k), inner.get(k)
+                    if isinstance(a, nn.Parameter) != isinstance(b, nn.Parameter):
+                        bad.append(f"class at {k}: {type(a).__name__} -> {type(b).__name__}")
+                    elif isinstance(a, nn.Parameter) and a.requires_grad != b.requires_grad:
+                        bad.append(f"requires_grad at {k}")
+            if bad:
+                run.oracle_fail("from_modules", case, "; ".join(bad[:5]), "from_modules:" + bad[0].split(" ")[0])
+            else:
+                run.oracle_ok("from_modules")
+
+
 def run_zoo(run):
     from_module_options(run)
+    from_modules_oracle(run)
     rng = run.rng
     combos = list(itertools.product(FACTORIES, PARAM_KINDS, range(len(OPTIONS)), FAULTS))
     if run.tier == "quick":
